@@ -37,7 +37,7 @@ func genNlCase(t *rapid.T) nlCase {
 	c.Ops = append(c.Ops, nlOp{K: "dial"})
 	nsess = 1
 	for len(c.Ops) < nops {
-		k := rapid.SampledFrom([]string{"dial", "open", "open", "cwrite", "cwrite", "cwrite", "accept", "accept", "sread", "sread", "swrite", "cread", "sclose", "cclose", "lclose", "sdeadline"}).Draw(t, "k")
+		k := rapid.SampledFrom([]string{"dial", "open", "open", "cwrite", "cwrite", "cwrite", "accept", "accept", "sread", "sread", "swrite", "cread", "sclose", "cclose", "lclose", "sdeadline", "hog", "unhog"}).Draw(t, "k")
 		op := nlOp{K: k}
 		switch k {
 		case "dial":
@@ -55,6 +55,10 @@ func genNlCase(t *rapid.T) nlCase {
 			if rapid.IntRange(0, 2).Draw(t, "really") != 0 {
 				continue
 			}
+		case "hog":
+			op.S = rapid.IntRange(0, nsess-1).Draw(t, "sess")
+			op.N = rapid.IntRange(0, 2).Draw(t, "keep")
+		case "unhog":
 		case "accept":
 		default:
 			if nstreams == 0 {
@@ -77,6 +81,21 @@ type nlStream struct {
 	accepted           bool
 	cClosed, sClosed   bool
 	key                uint32
+}
+
+type hoggedBuf struct {
+	bm *bufferManager
+	b  *bufferSlice
+}
+
+// a buffer manager must not be touched once a session that owns it has been closed (its memory may be unmapped)
+func sessionsClosedFor(sessions []*Session, bm *bufferManager) bool {
+	for _, s := range sessions {
+		if s.bufferManager == bm && s.IsClosed() {
+			return true
+		}
+	}
+	return false
 }
 
 // acceptTimed: Accept with a bound (a listener that never answers must not wedge the harness)
@@ -106,9 +125,15 @@ func nlRun(c nlCase, r *runCtx) {
 	}
 	l := ln.(*listener)
 	lnClosed := false
+	var hogged []hoggedBuf
 	var sessions []*Session
 	var streams []*nlStream
 	defer func() {
+		for _, h := range hogged {
+			if !sessionsClosedFor(sessions, h.bm) {
+				h.bm.recycleBuffer(h.b)
+			}
+		}
 		if !lnClosed {
 			ln.Close()
 		}
@@ -418,6 +443,29 @@ func nlRun(c nlCase, r *runCtx) {
 				r.Violf("op %d: Read(nil) returned (%d, %v)", oi, k, err)
 				return
 			}
+		case "hog":
+			// shared memory of one session runs out (other users): writes spill to the socket until it is given back
+			if op.S >= len(sessions) || sessions[op.S].IsClosed() {
+				continue
+			}
+			bm := sessions[op.S].bufferManager
+			for _, l := range bm.lists {
+				for l.remain() > op.N {
+					b, err := l.pop()
+					if err != nil {
+						break
+					}
+					hogged = append(hogged, hoggedBuf{bm, b})
+				}
+			}
+			r.Label("pressure")
+		case "unhog":
+			for _, h := range hogged {
+				if !sessionsClosedFor(sessions, h.bm) {
+					h.bm.recycleBuffer(h.b)
+				}
+			}
+			hogged = nil
 		case "stall", "resume":
 			// probes only: the server's event loop stops / resumes consuming this session's queue (deterministic "data in flight")
 			if op.S >= len(sessions) {
@@ -443,6 +491,12 @@ func nlRun(c nlCase, r *runCtx) {
 			r.Label("listener-closed-mid-history")
 		}
 	}
+	for _, h := range hogged {
+		if !sessionsClosedFor(sessions, h.bm) {
+			h.bm.recycleBuffer(h.b)
+		}
+	}
+	hogged = nil
 	// ---- end: every stream with data must have surfaced exactly once (if the listener is still open) ----
 	if !lnClosed {
 		for expectAccept() > 0 {
